@@ -10,6 +10,8 @@ import Pearl.Proofs.EndToEndStartStore
 import Pearl.Proofs.EndToEndStartOffloadBytes
 import Pearl.Proofs.EndToEndStartDir
 import Pearl.Props.C03b
+import Pearl.Proofs.EndToEndCfgRun
+import Pearl.Proofs.EndToEndCfgMerge
 /-
 End-to-end read path: the composition of C01 (rank order / `prune_transparent`), C10 (filters and the
 hierarchical container never give a false negative), C09 (look-ups through the B+tree file image equal look-ups
@@ -1623,6 +1625,396 @@ end Pearl.E2E
 #print axioms Pearl.E2E.end_to_end_offload_then_restart_with_indexes
 #print axioms Pearl.E2E.reread_filters_probe_same_bits
 
+namespace Pearl.E2E
+open Pearl Pearl.BPTree Pearl.Container
+
+/-! # Extension: sessions with DIFFERENT bloom configurations on one directory (C10 / C17)
+
+Model: `Pearl/Model/EndToEndCfg.lean` (`XState`: the storage with the configuration of the running session;
+`restartWith bloom lazy`: close + `init` under a configuration that differs in `bloom_config`: other element count,
+hasher count, bit count, or no bloom filter; index files are kept and their filters read back WITH THE GEOMETRY THEY
+WERE WRITTEN WITH, other blobs are regenerated with a filter of the new configuration, the container is rebuilt with
+`push` = `merge_filters`).  Lemmas: `Pearl/Proofs/EndToEndCfg{Blob,Steps,Restart,Run,Merge}.lean`.
+
+The invariant (`MC.CInvC` over `MC.BlobInvC`) is the invariant `CInv` with the equation `b.filter = filterOf cfg b.ghost`
+replaced by the properties C10 needs of a filter — well-formed, covering every key of the blob, resident — for ANY
+geometry; it does not mention the bloom configuration (`MC.CInvC.withBloom`), and `CInv` is an instance
+(`MC.CInvC.ofCInv`). -/
+
+/-- refinement along every history of sessions: the L2 history (a `restartWith` is the L2 `restart`) and the
+    invariant under the configuration running at the end -/
+theorem refinement_cfgs {cfg : Cfg} (hcfg : cfg.OK) (ops : List XOp) (hops : ∀ op ∈ ops, op.OK cfg)
+    (hsz : StoreSized cfg.klen ((Store.init cfg.allowDup).run (ops.map XOp.abs))) :
+    ((XState.init cfg).run ops).abs = (Store.init cfg.allowDup).run (ops.map XOp.abs) ∧
+      MC.CInvC ((XState.init cfg).run ops).cfg ((XState.init cfg).run ops).st ∧
+      ((XState.init cfg).run ops).cfg = cfg.withBloom (((XOp.blooms ops).getLast?).getD cfg.bloom) := by
+  obtain ⟨h1, h2⟩ := MC.xrun_ref hcfg ops hops hsz
+  exact ⟨h1, h2.inv, MC.xrun_cfg cfg ops (XState.init cfg) ⟨cfg.bloom, rfl⟩⟩
+
+/-- in any state satisfying the configuration-independent invariant the read path answers per `Spec` -/
+theorem read_of_inv_cfgs {cfg : Cfg} (hcfg : cfg.OK) (c : CState) (hinv : MC.CInvC cfg c) (k : Key) :
+    c.read cfg k = .ok ((Spec.latest (c.abs cfg).history k).map (fun p => dataOf p.r.data)) ∧
+    c.contains cfg k = .ok ((Spec.latest (c.abs cfg).history k).map (·.r.ts)) := by
+  refine ⟨?_, ?_⟩
+  · rw [MC.read_eq hcfg hinv k, read_eq_spec hinv.wf k, ReadResult.map_map]
+  · rw [MC.contains_eq hcfg hinv k, contains_eq_spec hinv.wf k]
+
+/-- **`end_to_end_read_cfgs`**: for every history from the empty storage with ANY number of `restartWith` steps —
+    any sequence of bloom configurations, including bloom off / on — and every key, the concrete read of the running
+    session (active blob, `iter_possible_childs_rev` with the node filters the start-ups merged, per blob
+    `check_filter` with the filter the blob has — of whatever geometry —, index look-up, `Entry::load`) returns
+    without error exactly what `Spec.latest` of the L2 history says. -/
+theorem end_to_end_read_cfgs {cfg : Cfg} (hcfg : cfg.OK) (ops : List XOp) (hops : ∀ op ∈ ops, op.OK cfg)
+    (hsz : StoreSized cfg.klen ((Store.init cfg.allowDup).run (ops.map XOp.abs))) (k : Key) :
+    ((XState.init cfg).run ops).read k =
+      .ok ((Spec.latest ((Store.init cfg.allowDup).run (ops.map XOp.abs)).history k).map
+        (fun p => dataOf p.r.data)) ∧
+    ((XState.init cfg).run ops).contains k =
+      .ok ((Spec.latest ((Store.init cfg.allowDup).run (ops.map XOp.abs)).history k).map (·.r.ts)) := by
+  obtain ⟨habs, hx⟩ := MC.xrun_ref hcfg ops hops hsz
+  have := read_of_inv_cfgs hx.ok _ hx.inv k
+  unfold XState.abs at habs
+  rw [habs] at this
+  exact this
+
+/-- the record served is a record of the history: the answers classify exactly -/
+theorem end_to_end_read_cfgs_cases {cfg : Cfg} (hcfg : cfg.OK) (ops : List XOp) (hops : ∀ op ∈ ops, op.OK cfg)
+    (hsz : StoreSized cfg.klen ((Store.init cfg.allowDup).run (ops.map XOp.abs))) (k : Key) :
+    let h := ((Store.init cfg.allowDup).run (ops.map XOp.abs)).history
+    (∀ p, Spec.latest h k = .found p → ((XState.init cfg).run ops).read k = .ok (.found (dataOf p.r.data))) ∧
+    (∀ ts, Spec.latest h k = .deleted ts → ((XState.init cfg).run ops).read k = .ok (.deleted ts)) ∧
+    (Spec.latest h k = .notFound → ((XState.init cfg).run ops).read k = .ok .notFound) := by
+  intro h
+  have := (end_to_end_read_cfgs hcfg ops hops hsz k).1
+  refine ⟨fun p hp => ?_, fun ts hp => ?_, fun hp => ?_⟩ <;> rw [this, hp] <;> rfl
+
+/-- a start-up under another configuration changes no answer -/
+theorem restart_with_config_of_inv {cfg : Cfg} (hcfg : cfg.OK) (c : CState) (hinv : MC.CInvC cfg c)
+    (bloom : Option (BloomConfig × Nat)) (hbl : BloomOK bloom) (lazy : Bool) (k : Key) :
+    (c.restartWith (cfg.withBloom bloom) lazy).read (cfg.withBloom bloom) k = c.read cfg k ∧
+    (c.restartWith (cfg.withBloom bloom) lazy).contains (cfg.withBloom bloom) k = c.contains cfg k ∧
+    MC.CInvC (cfg.withBloom bloom) (c.restartWith (cfg.withBloom bloom) lazy) := by
+  have hok' := hcfg.withBloom hbl
+  obtain ⟨habs, hinv'⟩ := MC.restartWith_ref hok' (hinv.withBloom bloom) lazy
+  have hans := restart_answers hinv.wf lazy k
+  have habs' : (c.restartWith (cfg.withBloom bloom) lazy).abs (cfg.withBloom bloom) = (c.abs cfg).restart lazy := habs
+  refine ⟨?_, ?_, hinv'⟩
+  · rw [MC.read_eq hok' hinv' k, MC.read_eq hcfg hinv k, habs', hans.1]
+  · rw [MC.contains_eq hok' hinv' k, MC.contains_eq hcfg hinv k, habs', hans.2.2.1]
+
+/-- **`no_false_negative_across_configs`**: after every history with any number of `restartWith` steps, every
+    stored key of every blob (`ghost` = the records of the blob in the L2 history, first conjunct) passes every filter
+    consulted on its path: the blob's own `check_filter` (whatever geometry its filter has), and the filter of every
+    inner node of the container below which the blob hangs (`None` passes) — so `iter_possible_childs_rev(key)` as
+    written yields the blob and the read path consults it. -/
+theorem no_false_negative_across_configs {cfg : Cfg} (hcfg : cfg.OK) (ops : List XOp) (hops : ∀ op ∈ ops, op.OK cfg)
+    (hsz : StoreSized cfg.klen ((Store.init cfg.allowDup).run (ops.map XOp.abs))) :
+    let x := (XState.init cfg).run ops
+    ((Store.init cfg.allowDup).run (ops.map XOp.abs)).blobs = x.st.blobs.map CBlob.abs ∧
+    (∀ b ∈ x.st.blobs, ∀ r ∈ b.ghost, b.checkFilter x.cfg r.key ≠ .notContains) ∧
+    (∀ j lf, x.st.cont.getChild j = some lf → ∀ r ∈ lf.data.ghost,
+      (∀ id nd, x.st.cont.getInner id = some (.node nd) →
+        j ∈ Container.leavesBelow x.st.cont (x.st.cont.inner.length + 2) id →
+        (fops x.cfg).coversOpt nd.filter r.key) ∧
+      j ∈ Container.iterPossibleStack (fops x.cfg) x.st.cont true r.key ∧
+      lf.data ∈ x.st.consulted x.cfg r.key) := by
+  intro x
+  obtain ⟨habs, hx⟩ := MC.xrun_ref hcfg ops hops hsz
+  have hinv : MC.CInvC x.cfg x.st := hx.inv
+  refine ⟨?_, ?_, ?_⟩
+  · rw [← habs]; exact abs_blobs x.cfg x.st
+  · intro b hb r hr
+    exact (CInvG.blobInv hinv hb).checkFilter_no_fn r.key ⟨r, hr, rfl⟩
+  · intro j lf hlf r hr
+    obtain ⟨g, hci, hcov⟩ := hinv.cont
+    have hc := hcov j lf.data (getChild_some_slots hlf) r hr
+    have hj := (C10.possible_rev_complete_stack x.st.cont g r.key hci).2.2.2 j lf hlf hc
+    refine ⟨?_, hj, ?_⟩
+    · intro id nd hn hbelow
+      exact Container.node_filter_sup_arena x.st.cont g hci id nd hn j hbelow r.key hc
+    · unfold CState.consulted
+      apply List.mem_append_right
+      exact List.mem_filterMap.mpr ⟨j, hj, by rw [hlf]; rfl⟩
+
+/-! ## (2) the merge rule `no_false_negative_across_configs` rests on -/
+
+/-- **the merge rule** of `Bloom::checked_add_assign` (the model function is `Bloom.merge` of `Filter.lean`, which has
+    the guard of the code — no finding): the merge succeeds ONLY for equal hasher count AND equal bit count AND
+    neither side off-loaded; a refused merge leaves `self` untouched; the empty bloom (`bits_count = 0`) merges only
+    with an empty bloom. -/
+theorem bloom_merge_rule (b o : Bloom) (hb : b.WF) (ho : o.WF) :
+    ((b.merge o).2 = true ↔ b.k = o.k ∧ b.bits = o.bits ∧ b.isOffloaded = false ∧ o.isOffloaded = false) ∧
+    ((b.merge o).2 = false → (b.merge o).1 = b) ∧
+    (b.bits = 0 → (b.merge o).2 = true → o.bits = 0) ∧
+    (o.bits = 0 → (b.merge o).2 = true → b.bits = 0) :=
+  ⟨MC.bloom_merge_succeeds_iff b o hb ho, MC.bloom_merge_refused b o,
+    fun hz hm => (MC.bloom_merge_empty_left b o hb ho hz hm).1,
+    fun hz hm => (MC.bloom_merge_empty_right b o hb ho hz hm).1⟩
+
+/-- … and of `Inner::merge_filters` over `CombinedFilter::checked_add_assign`: the node filter stays `Some` exactly
+    when both filters are there and their bloom parts are both absent or merge by the rule above; **in every other
+    case the node becomes `None`** (and then passes every key) — never the stale filter. -/
+theorem merge_filters_rule (h : Nat → Key → Nat) (dest source : Option Combined)
+    (hd : ∀ d, dest = some d → d.WF) (hs : ∀ s, source = some s → s.WF) :
+    ((Container.mergeFilters (combinedOps h) dest source).isSome = true ↔
+      ∃ d s, dest = some d ∧ source = some s ∧
+        ((d.bloom = none ∧ s.bloom = none) ∨
+          ∃ x y, d.bloom = some x ∧ s.bloom = some y ∧
+            x.k = y.k ∧ x.bits = y.bits ∧ x.isOffloaded = false ∧ y.isOffloaded = false)) ∧
+    (∀ k, (combinedOps h).coversOpt (none : Option Combined) k) := by
+  refine ⟨?_, fun _ => trivial⟩
+  rw [MC.mergeFilters_isSome_iff]
+  constructor
+  · rintro ⟨d, s, rfl, rfl, hh⟩
+    refine ⟨d, s, rfl, rfl, ?_⟩
+    rcases hh with hh | ⟨x, y, hx, hy, hm⟩
+    · exact Or.inl hh
+    · exact Or.inr ⟨x, y, hx, hy, (MC.bloom_merge_succeeds_iff x y ((hd d rfl).2 x hx) ((hs s rfl).2 y hy)).mp
+        ((MC.bloom_merge_true_iff x y).mpr hm)⟩
+  · rintro ⟨d, s, rfl, rfl, hh⟩
+    refine ⟨d, s, rfl, rfl, ?_⟩
+    rcases hh with hh | ⟨x, y, hx, hy, hm⟩
+    · exact Or.inl hh
+    · exact Or.inr ⟨x, y, hx, hy, (MC.bloom_merge_true_iff x y).mp
+        ((MC.bloom_merge_succeeds_iff x y ((hd d rfl).2 x hx) ((hs s rfl).2 y hy)).mpr hm)⟩
+
+/-- what makes the rule sufficient: a merge that succeeds covers what either side covered, a refused one yields
+    `None` (the `FilterLaws` instance the container proofs of C10 are run with) -/
+theorem merge_filters_sound (h : Nat → Key → Nat) (d s : Option Combined) (hd : ∀ x, d = some x → x.WF)
+    (hs : ∀ x, s = some x → x.WF) (k : Key)
+    (hk : (combinedOps h).coversOpt d k ∨ (combinedOps h).coversOpt s k) :
+    (combinedOps h).coversOpt (Container.mergeFilters (combinedOps h) d s) k :=
+  Container.mergeFilters_sup (combinedLaws h) d s hd hs k hk
+
+/-! ## non-vacuity (sessions with different bloom configurations) -/
+
+namespace DemoX
+
+/-- four sessions on one directory: 2 hashers / 100 bits, then 3 hashers / 64 bits, then NO bloom filter, then
+    2 hashers / 100 bits again; every session writes one blob, closes and dumps it; the last start-up is not lazy -/
+def ops : List XOp :=
+  [.op (.write 1 5 ⟨2, 1⟩), .op (.write 2 6 ⟨1, 2⟩), .op .closeActive, .op .settle,
+   .restartWith (some (⟨10, 3, 64, 1, 0⟩, 64)) true,
+   .op (.write 3 7 ⟨1, 3⟩), .op .closeActive, .op .settle,
+   .restartWith none true,
+   .op (.write 4 8 ⟨1, 4⟩), .op .closeActive, .op .settle,
+   .restartWith (some (⟨10, 2, 100, 1, 0⟩, 100)) false,
+   .op (.write 5 9 ⟨1, 5⟩), .op (.delete 2 10 false)]
+
+def x : XState := (XState.init Demo.cfg).run ops
+
+theorem ops_ok : ∀ op ∈ ops, op.OK Demo.cfg := by decide
+
+set_option maxRecDepth 100000 in
+theorem ops_sized : StoreSized Demo.cfg.klen ((Store.init Demo.cfg.allowDup).run (ops.map XOp.abs)) := by
+  unfold StoreSized; decide
+
+/-- hasher count and bit count of the bloom part of a filter (`none` = no bloom part) -/
+def geom (c : Combined) : Option (Nat × Nat) := c.bloom.map (fun b => (b.k, b.bits))
+
+end DemoX
+
+-- the blobs of the last session: three geometries side by side; blob 1 keeps the 3-hasher filter of its index file,
+-- blob 0 the one with 2 hashers / 100 bits (the delete of key 2 loaded its index again, with the filter of the
+-- file), blob 2 was written by the bloom-less session (the empty bloom in its file) and, being the last blob of a
+-- non-lazy start-up, became the active one: `load_index` read the EMPTY bloom back
+set_option maxRecDepth 1000000 in
+example : DemoX.x.st.blobs.map (fun b => (b.id, b.index.onDisk, DemoX.geom b.filter))
+    = [(0, false, some (2, 100)), (1, true, some (3, 64)), (2, false, some (0, 0))] ∧
+    DemoX.x.cfg.bloom = some (⟨10, 2, 100, 1, 0⟩, 100) := by decide
+
+-- the node filter above blobs 0 and 1: the merge was refused (2 ≠ 3 hashers), so it is `None`
+set_option maxRecDepth 1000000 in
+example : (DemoX.x.st.cont.inner.filterMap (fun o => match o with
+      | some (.node n) => some (n.filter.map DemoX.geom)
+      | _ => none)) = [none, none] := by decide
+
+-- the reads, evaluated: every key written in any session is found, key 2 is deleted, key 6 is absent
+set_option maxRecDepth 1000000 in
+example : DemoX.x.read 1 = .ok (.found (dataOf ⟨2, 1⟩)) ∧ DemoX.x.read 3 = .ok (.found (dataOf ⟨1, 3⟩)) ∧
+    DemoX.x.read 4 = .ok (.found (dataOf ⟨1, 4⟩)) ∧ DemoX.x.read 5 = .ok (.found (dataOf ⟨1, 5⟩)) ∧
+    DemoX.x.read 2 = .ok (.deleted 10) ∧ DemoX.x.read 6 = .ok .notFound := by decide
+
+-- … and by the theorems
+example (k : Key) : DemoX.x.read k =
+    .ok ((Spec.latest ((Store.init true).run (DemoX.ops.map XOp.abs)).history k).map (fun p => dataOf p.r.data)) :=
+  (end_to_end_read_cfgs Demo.cfg_ok DemoX.ops DemoX.ops_ok DemoX.ops_sized k).1
+
+example : ∀ b ∈ DemoX.x.st.blobs, ∀ r ∈ b.ghost, b.checkFilter DemoX.x.cfg r.key ≠ .notContains :=
+  (no_false_negative_across_configs Demo.cfg_ok DemoX.ops DemoX.ops_ok DemoX.ops_sized).2.1
+
+example : MC.CInvC DemoX.x.cfg DemoX.x.st :=
+  (refinement_cfgs Demo.cfg_ok DemoX.ops DemoX.ops_ok DemoX.ops_sized).2.1
+
+-- pruning still happens where the geometries agree: in a two-session history with EQUAL geometry the node filter is
+-- kept and prunes key 40
+set_option maxRecDepth 1000000 in
+example :
+    let y := (XState.init Demo.cfg).run
+      [.op (.write 1 5 ⟨2, 1⟩), .op .closeActive, .op .settle, .restartWith (some (⟨99, 2, 7, 1, 0⟩, 100)) true,
+       .op (.write 3 7 ⟨1, 3⟩), .op .closeActive, .op .settle, .restartWith (some (⟨10, 2, 100, 1, 0⟩, 100)) true]
+    (y.st.cont.inner.filterMap (fun o => match o with
+      | some (.node n) => some (n.filter.map DemoX.geom)
+      | _ => none)) = [some (some (2, 100)), some (some (2, 100))] ∧
+    (y.st.consulted y.cfg 40).map (·.id) = [] ∧ (y.st.consulted y.cfg 3).map (·.id) = [1, 0] := by decide
+
+-- the merge rule on concrete filters
+example : ((Bloom.new ⟨10, 2, 100, 1, 0⟩ 100).merge (Bloom.new ⟨10, 3, 100, 1, 0⟩ 100)).2 = false ∧
+    ((Bloom.new ⟨10, 2, 100, 1, 0⟩ 100).merge (Bloom.new ⟨10, 2, 64, 1, 0⟩ 64)).2 = false ∧
+    ((Bloom.new ⟨10, 2, 100, 1, 0⟩ 100).merge Bloom.empty).2 = false ∧
+    (Bloom.empty.merge Bloom.empty).2 = true ∧
+    ((Bloom.new ⟨10, 2, 100, 1, 0⟩ 100).merge (Bloom.new ⟨77, 2, 5, 9, 3⟩ 100)).2 = true ∧
+    ((Bloom.new ⟨10, 2, 100, 1, 0⟩ 100).merge (Bloom.new ⟨10, 2, 100, 1, 0⟩ 100).offload.1).2 = false := by decide
+
+-- the third conjunct of `no_false_negative_across_configs` on the four-session history: blob 1 (3 hashers / 64 bits)
+-- sits in slot 1 below the root and one group node; its key 3 passes both and the blob is consulted
+set_option maxRecDepth 1000000 in
+example : (DemoX.x.st.cont.getChild 1).map (fun lf => (lf.data.id, lf.data.ghost.map (·.key))) = some (1, [3]) ∧
+    Container.leavesBelow DemoX.x.st.cont (DemoX.x.st.cont.inner.length + 2) DemoX.x.st.cont.root = [0, 1] ∧
+    (DemoX.x.st.consulted DemoX.x.cfg 3).map (·.id) = [2, 1, 0] := by decide
+
+example (lf : FLeaf CBlob) (h : DemoX.x.st.cont.getChild 1 = some lf) (r : Rec) (hr : r ∈ lf.data.ghost) :
+    (∀ id nd, DemoX.x.st.cont.getInner id = some (.node nd) →
+      1 ∈ Container.leavesBelow DemoX.x.st.cont (DemoX.x.st.cont.inner.length + 2) id →
+      (fops DemoX.x.cfg).coversOpt nd.filter r.key) ∧
+    lf.data ∈ DemoX.x.st.consulted DemoX.x.cfg r.key :=
+  let t := (no_false_negative_across_configs Demo.cfg_ok DemoX.ops DemoX.ops_ok DemoX.ops_sized).2.2 1 lf h r hr
+  ⟨t.1, t.2.2⟩
+
+-- a start-up of the single-configuration demo storage under two other configurations, by the theorem
+example (k : Key) :
+    (Demo.s.restartWith (Demo.cfg.withBloom none) true).read (Demo.cfg.withBloom none) k = Demo.s.read Demo.cfg k ∧
+    (Demo.s.restartWith (Demo.cfg.withBloom (some (⟨10, 5, 64, 1, 0⟩, 64))) false).read
+      (Demo.cfg.withBloom (some (⟨10, 5, 64, 1, 0⟩, 64))) k = Demo.s.read Demo.cfg k :=
+  have hinv := MC.CInvC.ofCInv Demo.cfg_ok (refinement_run Demo.cfg_ok Demo.ops Demo.ops_ok Demo.ops_sized).2
+  ⟨(restart_with_config_of_inv Demo.cfg_ok Demo.s hinv none (by decide) true k).1,
+    (restart_with_config_of_inv Demo.cfg_ok Demo.s hinv _ (by decide) false k).1⟩
+
+-- the merge rule instantiated: a 2-hasher / 100-bit filter and a 3-hasher / 100-bit filter
+example : ((Bloom.new ⟨10, 2, 100, 1, 0⟩ 100).merge (Bloom.new ⟨10, 3, 100, 1, 0⟩ 100)).2 = true ↔
+    (2 : Nat) = 3 ∧ (100 : Nat) = 100 ∧ false = false ∧ false = false :=
+  (bloom_merge_rule _ _ (Bloom.new_WF _ _) (Bloom.new_WF _ _)).1
+
+example : (Container.mergeFilters (combinedOps Demo.cfg.h)
+      (some { bloom := some (Bloom.new ⟨10, 2, 100, 1, 0⟩ 100), range := Range.new })
+      (some { bloom := some Bloom.empty, range := Range.new })) = none ∧
+    (Container.mergeFilters (combinedOps Demo.cfg.h)
+      (some { bloom := some (Bloom.new ⟨10, 2, 100, 1, 0⟩ 100), range := Range.new })
+      (some { bloom := none, range := Range.new })) = none ∧
+    (Container.mergeFilters (combinedOps Demo.cfg.h)
+      (some { bloom := some (Bloom.new ⟨10, 2, 100, 1, 0⟩ 100), range := Range.new })
+      (some { bloom := some (Bloom.new ⟨11, 2, 50, 2, 1⟩ 100), range := Range.new })).isSome = true := by decide
+
+/-! ## (3) the three seeded variants of the merge rule, as counter-models
+
+Each variant is a `FilterOps` (`Pearl/Model/EndToEndCfg.lean`) used by the start-up to merge the node filters
+(`XState.runOps`); everything else — blobs, index files, read path — is the model of the theorems above.  On a
+concrete history of two or three sessions a stored key is filtered out by a node filter: the read answers `NotFound`
+for a key `Spec.latest` finds — while the real rule (`XState.run`) on the same history finds it. -/
+
+namespace DemoBad
+
+/-- the L2 answer for key 3 of a history (decidable form) -/
+def l2 (ops : List XOp) : ReadResult Rec := ((Store.init true).run (ops.map XOp.abs)).read 3 none
+
+/-- 3 hashers / 100 bits, then 1 hasher / 100 bits: equal bit counts, different hasher counts -/
+def cfg3 : Cfg := { Demo.cfg with bloom := some (⟨10, 3, 100, 1, 0⟩, 100) }
+
+def opsHashers : List XOp :=
+  [.op (.write 1 5 ⟨2, 1⟩), .op .closeActive, .op .settle,
+   .restartWith (some (⟨10, 1, 100, 1, 0⟩, 100)) true,
+   .op (.write 3 7 ⟨1, 3⟩),
+   .restartWith (some (⟨10, 1, 100, 1, 0⟩, 100)) true]
+
+/-- 2 hashers / 100 bits, then 3 hashers / 64 bits: the merge is refused -/
+def opsStale : List XOp :=
+  [.op (.write 1 5 ⟨2, 1⟩), .op .closeActive, .op .settle,
+   .restartWith (some (⟨10, 3, 64, 1, 0⟩, 64)) true,
+   .op (.write 3 7 ⟨1, 3⟩),
+   .restartWith (some (⟨10, 3, 64, 1, 0⟩, 64)) true]
+
+/-- 2 hashers / 100 bits, then NO bloom filter (the index file of blob 1 holds `Bloom::empty()`), then 2 / 100 again -/
+def opsEmpty : List XOp :=
+  [.op (.write 1 5 ⟨2, 1⟩), .op .closeActive, .op .settle,
+   .restartWith none true,
+   .op (.write 3 7 ⟨1, 3⟩), .op .closeActive, .op .settle,
+   .restartWith (some (⟨10, 2, 100, 1, 0⟩, 100)) true]
+
+/-- the node filters of the arena, as geometries -/
+def nodes (x : XState) : List (Option (Option (Nat × Nat))) :=
+  x.st.cont.inner.filterMap (fun o => match o with
+    | some (.node n) => some (n.filter.map DemoX.geom)
+    | _ => none)
+
+end DemoBad
+
+set_option maxRecDepth 1000000 in
+/-- **seeded variant 1, blooms with different hasher counts merged**: the node filter keeps the 3 hashers of the
+    first blob and the bits the 1-hasher blob set; key 3 (stored in blob 1) is probed at 3 positions, 2 of which
+    nobody set — filtered out.  The real rule refuses the merge (`None`) and finds the key. -/
+theorem seeded_hashers_merged_loses_key :
+    let bad := XState.runOps (opsNoHashers Demo.cfg.h) (XState.init DemoBad.cfg3) DemoBad.opsHashers
+    let good := (XState.init DemoBad.cfg3).run DemoBad.opsHashers
+    DemoBad.l2 DemoBad.opsHashers = .found ⟨3, 7, false, none, ⟨1, 3⟩⟩ ∧
+    bad.read 3 = .ok .notFound ∧ DemoBad.nodes bad = [some (some (3, 100)), some (some (3, 100))] ∧
+    (bad.st.blobs.map (fun b => (b.id, b.ghost.map (·.key), DemoX.geom b.filter)))
+      = [(0, [1], some (3, 100)), (1, [3], some (1, 100))] ∧
+    good.read 3 = .ok (.found (dataOf ⟨1, 3⟩)) ∧ DemoBad.nodes good = [none, none] := by decide
+
+set_option maxRecDepth 1000000 in
+/-- **seeded variant 2, a refused merge keeping the stale node filter**: the merge of the 3-hasher / 64-bit filter of
+    blob 1 into the 2-hasher / 100-bit node filter is refused, the node keeps the bloom part of blob 0 alone; key 3
+    is not in it — filtered out.  The real `merge_filters` sets the node to `None`. -/
+theorem seeded_stale_node_filter_loses_key :
+    let bad := XState.runOps (opsKeepStale Demo.cfg.h) (XState.init Demo.cfg) DemoBad.opsStale
+    let good := (XState.init Demo.cfg).run DemoBad.opsStale
+    DemoBad.l2 DemoBad.opsStale = .found ⟨3, 7, false, none, ⟨1, 3⟩⟩ ∧
+    bad.read 3 = .ok .notFound ∧ DemoBad.nodes bad = [some (some (2, 100)), some (some (2, 100))] ∧
+    (bad.st.blobs.map (fun b => (b.id, b.ghost.map (·.key), DemoX.geom b.filter)))
+      = [(0, [1], some (2, 100)), (1, [3], some (3, 64))] ∧
+    good.read 3 = .ok (.found (dataOf ⟨1, 3⟩)) ∧ DemoBad.nodes good = [none, none] := by decide
+
+set_option maxRecDepth 1000000 in
+/-- **seeded variant 3, the empty bloom treated as mergeable**: blob 1 was written by the bloom-less session, its
+    index file holds `Bloom::empty()`; the session with a bloom filter reads it back (`bits_count = 0`, no hashers),
+    the merge into the node filter "succeeds" without adding anything; key 3 is not in the node's bloom — filtered
+    out.  The real rule refuses (0 ≠ 2 hashers) and the node becomes `None`. -/
+theorem seeded_empty_bloom_merged_loses_key :
+    let bad := XState.runOps (opsEmptyOk Demo.cfg.h) (XState.init Demo.cfg) DemoBad.opsEmpty
+    let good := (XState.init Demo.cfg).run DemoBad.opsEmpty
+    DemoBad.l2 DemoBad.opsEmpty = .found ⟨3, 7, false, none, ⟨1, 3⟩⟩ ∧
+    bad.read 3 = .ok .notFound ∧ DemoBad.nodes bad = [some (some (2, 100)), some (some (2, 100))] ∧
+    (bad.st.blobs.map (fun b => (b.id, b.ghost.map (·.key), DemoX.geom b.filter)))
+      = [(0, [1], some (2, 100)), (1, [3], some (0, 0))] ∧
+    good.read 3 = .ok (.found (dataOf ⟨1, 3⟩)) ∧ DemoBad.nodes good = [none, none] := by decide
+
+/-- the variants differ from the real rule exactly where the rule refuses: on filters the rule merges, `mergeVia` over
+    the real bloom merge is the real `checked_add_assign` -/
+theorem merge_via_real (c o : Combined) : Combined.mergeVia Bloom.merge c o = c.merge o := MC.mergeVia_merge c o
+
+-- the three refusals the variants drop, on the filters of the counter-models
+example :
+    ((Bloom.new ⟨10, 3, 100, 1, 0⟩ 100).merge (Bloom.new ⟨10, 1, 100, 1, 0⟩ 100)).2 = false ∧
+    (Bloom.mergeNoHashers (Bloom.new ⟨10, 3, 100, 1, 0⟩ 100) (Bloom.new ⟨10, 1, 100, 1, 0⟩ 100)).2 = true ∧
+    ((Bloom.new ⟨10, 2, 100, 1, 0⟩ 100).merge Bloom.empty).2 = false ∧
+    (Bloom.mergeEmptyOk (Bloom.new ⟨10, 2, 100, 1, 0⟩ 100) Bloom.empty).2 = true := by decide
+
+end Pearl.E2E
+
+#print axioms Pearl.E2E.refinement_cfgs
+#print axioms Pearl.E2E.read_of_inv_cfgs
+#print axioms Pearl.E2E.end_to_end_read_cfgs
+#print axioms Pearl.E2E.end_to_end_read_cfgs_cases
+#print axioms Pearl.E2E.restart_with_config_of_inv
+#print axioms Pearl.E2E.no_false_negative_across_configs
+#print axioms Pearl.E2E.bloom_merge_rule
+#print axioms Pearl.E2E.merge_filters_rule
+#print axioms Pearl.E2E.merge_filters_sound
+#print axioms Pearl.E2E.seeded_hashers_merged_loses_key
+#print axioms Pearl.E2E.seeded_stale_node_filter_loses_key
+#print axioms Pearl.E2E.seeded_empty_bloom_merged_loses_key
+#print axioms Pearl.E2E.merge_via_real
+
 /-
 NOT YET PROVED
 * concurrency: the concrete operations are sequential (the read-side LTS of C08 is not composed with the bytes);
@@ -1650,9 +2042,31 @@ NOT YET PROVED
     `should_save_corrupted_blob`, `ignore_corrupted` — is not modelled here, `restartWithIndexes` answers `none`);
   - FINDING `index_with_short_filter_section_panics`: a file that passes the header checks but whose filter section
     is shorter than its own length prefix makes `deserialize_filters` panic (`split_at`) instead of being rejected;
-  - `bloom_is_on` changing between the dump and the start-up (an index written with a bloom filter opened by a
-    configuration without one, or the converse) is not covered: the configuration is the same before and after;
+  - `bloom_is_on` (or the bloom geometry) changing between the dump and the start-up is not covered by the BYTE-level
+    theorems of this section (the configuration is the same before and after); it is covered at the level of the
+    structured index file by the extension "sessions with different bloom configurations" (`end_to_end_read_cfgs`);
 * bloom off-loading (`end_to_end_offload_transparent`): the `freed` count returned by `offload_buffer` is modelled
   (`offloadBuffer … .2`, equal at both levels: `offloadBuffer_toB`) but nothing is proved about its value;
   `filter_memory_allocated` is not composed.
+* sessions with different bloom configurations (`end_to_end_read_cfgs`, `no_false_negative_across_configs`):
+  - stated on the structured storage `CState` (index file = B+tree image + filter section `metaBuf`), not on the bytes
+    of the index file (`BState`), and without metadata / `read_all` / bloom off-loading: the operations of a session
+    are `COp`; the merge rule is proved also for off-loaded sides (`bloom_merge_rule`), but no off-loading operation
+    occurs in the multi-configuration histories;
+  - "the index file of a blob exists" is identified with "the index of the blob is on disk when the storage is closed";
+    a blob whose index is in memory at that moment is regenerated with the NEW configuration.  The remaining real case —
+    an index file left by an earlier dump next to a blob that was loaded again and NOT written since (e.g.
+    `restore_active_blob` directly followed by a restart) is accepted by the code and keeps the OLD geometry — is not
+    a separate case of `reopen`; the invariant `MC.BlobInvC` is indifferent to the geometry and `MC.restartG_ref` proves
+    the start-up theorem for ANY per-blob reopening function that keeps id, records and `MC.BlobInvC` (so also for one
+    that keeps the old filter there), but that reopening function is not in the model;
+  - only `bloom_config` changes between sessions: `K::LEN` (the code rejects index files of another key size),
+    `bloom_filter_group_size`, `allow_duplicates`, `validate_data_during_index_regen` stay; the hash family is the
+    parameter `Cfg.h`, the same for all sessions (hasher `j` is `AHasher::new_with_keys(j+1, j+2)` in every
+    configuration);
+  - the three seeded variants are refuted on concrete histories (`seeded_*_loses_key`, by evaluation); that EVERY
+    weakening of the guard loses a key on some history is not a theorem;
+  - `bits_count` of a configuration is an input (`Cfg.bloom : Option (BloomConfig × Nat)`), as everywhere in the
+    model (the `f64` formula is not modelled); the theorems hold for every value, so also for the one the formula
+    yields.
 -/
